@@ -1522,6 +1522,9 @@ func TestConc(t *testing.T) {
 	if common.Thorough() {
 		maxRuns, nRandom = common.EnvInt("VERIF_CONC_RUNS", 60000), 20000
 	}
+	if prop == "C02" && os.Getenv("VERIF_TEMPLATE") == "" {
+		handBackProbe(res, prop)
+	}
 	rng := common.NewRng(common.Seed())
 	only := os.Getenv("VERIF_TEMPLATE")
 	for _, tp := range templates() {
